@@ -6,6 +6,7 @@ from ..sym import Sym, forward_paths, path_atoms, atom_str
 from ..terms import strip, short, cname, unmut, walk
 from .common import commut_sort
 import json
+import re
 
 LEVEL = "other"
 R = "alpha_g_physics::reconstruction::"
@@ -511,7 +512,11 @@ def flood_model(prog):
     def roles(txt):
         for r in order:
             txt = txt.replace(table[r], r)
-        return txt.replace("mut(POINTS)", "POINTS").replace("mut(CLUSTER)", "CLUSTER")
+        txt = txt.replace("mut(POINTS)", "POINTS").replace("mut(CLUSTER)", "CLUSTER")
+        # `v.get(i)` being Some is `i < v.len()`, and its payload is `v[i]` (while let Some(&c) = cluster.get(i))
+        txt = re.sub(r"\(<impl \[T\]>::get\((\w+),(\w+)\) as Some\)\.0", r"Index::index(\1,\2)", txt)
+        txt = re.sub(r"^<impl \[T\]>::get\((\w+),(\w+)\) is Some$", r"len(\1) - \2 - 1 >= 0", txt)
+        return txt
 
     def guards_at(bb):
         ats = set()
